@@ -52,7 +52,8 @@ Inductive loc :=
 | LStatus                    (* SourceControl.status, isSourceActive *)
 | LFile (i : nat)            (* the writer goroutine of channel i's data file (asyncbufio.Writer.writeLoop): its buffer
                                 and the error state of the underlying file; nobody else may look at it *)
-| LState.                    (* AnySource.sourceState, guarded by sourceStateLock *)
+| LState                     (* AnySource.sourceState, guarded by sourceStateLock *)
+| LMix.                      (* Lancero: the Mix objects (errorScale, last feedback value) of the feedback channels *)
 
 Inductive mid :=
 | MBuf (k : nat)             (* k-th message on buffersChan *)
@@ -65,7 +66,8 @@ Inductive mid :=
 | MReq (r : nat) | MRes (r : nat)              (* r-th request on queuedRequests / its reply on queuedResults *)
 | MWs                        (* the WritingState mutex *)
 | MXGo (j : nat) | MSnap (j : nat)             (* go of the j-th archive writer / its `complete` channel *)
-| MState.                    (* sourceStateLock *)
+| MState                     (* sourceStateLock *)
+| MMix | MMixR.              (* Lancero: a ConfigureMixFraction request on mixRequests / its reply on currentMix *)
 
 Definition tid_dec : forall a b : tid, {a = b} + {a <> b}.
 Proof. decide equality; apply Nat.eq_dec. Defined.
@@ -134,6 +136,8 @@ Inductive act :=
 | AX (j : nat)              (* archive writer j: next step *)
 | AQ (c : nat)              (* client: when idle, c = 0 ReadComment, c = k+1 a request of kind k; otherwise next step *)
 | AF (i : nat)              (* file writer goroutine i writes its buffer out / meets an I/O error (own ticker or overflow) *)
+| AM                        (* Lancero: the client's ConfigureMixFraction is served by the block assembler while it
+                               waits for the next buffers (the request does not go through the core loop) *)
 | AS (c : nat) (w : bool).  (* a short critical section of sourceStateLock: c = 0 the client's thread (GetState, Running,
                                Configure..., Stop), otherwise the core loop (RunDoneDeactivate); w: it writes the state *)
 
@@ -168,7 +172,7 @@ Definition step (v : variant) (n : nat) (s : st) (a : act) : option (st * trace)
              then upd 2 (ak s) 0 0 (awdone s)
                       ([Acq TA (MBuf (ak s)); wr TA (LHdr (ak s))]
                        ++ (if v_etrig_asm v then [wr TA LETrig; rd TA LTiming] else [])
-                       ++ [nextacc v TA false])
+                       ++ [nextacc v TA false; rd TA LMix])
              else None
       | 2 => if afc s <? n
              then upd 2 (ak s) (S (afc s)) 0 (awdone s) [Rel TA (MAFork (ak s) (afc s)) [(LSeg (ak s) (afc s), false)]]
@@ -340,6 +344,10 @@ Definition step (v : variant) (n : nat) (s : st) (a : act) : option (st * trace)
       | _ => None
       end
   | AF i => Some (s, [wr (TF i) (LFile i)])
+  | AM =>
+      if (apc s =? 1) && (qpc s =? 0)
+      then Some (s, [Rel TQ MMix []; Acq TA MMix; wr TA LMix; Rel TA MMixR []; Acq TQ MMixR])
+      else None
   | AS c w =>
       let t := if c =? 0 then TQ else TC in
       Some (s, [Acq t MState; Acc t LState w false; Rel t MState [(LState, false)]])
@@ -375,6 +383,7 @@ Definition holders0 (v : variant) (l : loc) : option (list (Conc.holder tid mid)
   | LStatus => Some [HT TQ]
   | LFile i => Some [HT (TF i)]
   | LState => Some [HM MState]
+  | LMix => Some [HT TA]
   end.
 
 Definition monitor_accepts (v : variant) (p : trace) : bool :=
